@@ -142,6 +142,12 @@ def _c14_cases(tier):
                 for k_, acts in (s.get("async") or {}).items():
                     if tr == "mem" and any(a[0] == "get" for a in acts):
                         reqs.append(("async", int(k_)))
+                # the simulator fails while it is being stopped (its finalize() raises)
+                if not plain:
+                    sc = copy.deepcopy(scen)
+                    next(x for x in sc["sims"] if x["sid"] == sid)["fault"] = dict(req="finalize", k=0, kind="raise")
+                    out.append((f"{name}/{tr}/{sid}/finalize[0]/raise", sc,
+                                dict(sid=sid, req="finalize", k=0, kind="raise", transport=tr)))
                 for req, k in reqs:
                     for fk in ((FAULT_KINDS_LOCAL + (["raise_stop"] if plain else []))
                                if tr == "local" else FAULT_KINDS_MEM):
@@ -307,7 +313,10 @@ def c14_post(x, fault):
     elif res[0] == "ok":
         # a process that exits after answering its *last* request has not failed as far as the
         # run is concerned; a remote failure reply is logged and run() returns
+        # (a remote simulator whose finalize() fails: the stop request is not answered by design,
+        # mosaik cannot know)
         if fault["kind"] != "die_after" and \
+                not (fault["req"] == "finalize" and fault["transport"] == "mem") and \
                 not (fault["kind"] == "raise" and fault["transport"] == "mem" and logged):
             add("fault-swallowed", "run() returned normally without an error"
                 + (" (error logged)" if logged else ""))
